@@ -409,6 +409,9 @@ pub fn c09_schedule_op() {
     let stored = declare_op_slot(0, &id);
     let min = declare_min_delay(1);
     let has = declare_role_members(2, &proposer_role());
+    // membership of the OTHER roles is arbitrary too: a check against the wrong role must show up as a failed clause
+    let _ = declare_role_members(2 + NR, &canceller_role());
+    let _ = declare_role_members(2 + 2 * NR, &executor_role());
     let proposer = addr_below(NR as u32);
     let delay: u32 = kani::any();
     let seq = world().seq;
@@ -433,7 +436,7 @@ pub fn c09_schedule_op() {
     prop!(stored_now(0) == want, "C09.ctrl.schedule_op.ready_at_sequence_plus_delay");
     witness!(op.target == e.current_contract_address(), "self_administration_operation_scheduled");
     witness!(op.target != e.current_contract_address(), "external_operation_scheduled");
-    end_checks(2 + NR);
+    end_checks(2 + 3 * NR);
 }
 
 #[kani::proof]
@@ -443,6 +446,9 @@ pub fn c09_cancel_op() {
     let id = <BytesN<32> as Arb>::arb();
     let stored = declare_op_slot(0, &id);
     let has = declare_role_members(1, &canceller_role());
+    // membership of the OTHER roles is arbitrary too: a check against the wrong role must show up as a failed clause
+    let _ = declare_role_members(1 + NR, &proposer_role());
+    let _ = declare_role_members(1 + 2 * NR, &executor_role());
     let canceller = addr_below(NR as u32);
 
     TimelockController::cancel_op(&e, id.clone(), canceller.clone());
@@ -451,7 +457,7 @@ pub fn c09_cancel_op() {
     prop!(authorized(&canceller) && model::auth_count(&canceller) >= 1, "C09.ctrl.cancel_op.canceller_authorized");
     prop!(stored >= 2 && !model::slot_live(0), "C09.ctrl.cancel_op.pending_operation_becomes_unset");
     witness!(stored > world().seq, "waiting_operation_cancelled");
-    end_checks(1 + NR);
+    end_checks(1 + 3 * NR);
 }
 
 #[kani::proof]
